@@ -331,7 +331,46 @@ def cmp_fails(case):
     return None
 
 
+def workarray_replay_fails(case):
+    """a program that accumulates into the rows of a work array wrapped by hand (owning storage or a view of a larger
+    allocation; updates through view nodes): every replay equals the direct run with a fresh work array"""
+    D, P = case['D'], case['P']
+
+    def prog(x, acc):
+        r0, r1 = acc[0], acc[1]
+        r0 += x
+        r1 += x * x
+        r0 += r1
+        return acc * acc
+
+    def fresh():
+        z = np.zeros((2, D, P, 2, 3))[0] if case['nonowning'] else np.zeros((D, P, 2, 3))
+        return UTPM(z)
+    rec = np.array(case['rec'])
+    cg = algopy.CGraph()
+    fx = algopy.Function(UTPM(rec.copy()))
+    fy = prog(fx, algopy.Function(fresh()))
+    cg.trace_off()
+    cg.independentFunctionList = [fx]
+    cg.dependentFunctionList = [fy]
+    if not close(fy.x.data, prog(UTPM(rec.copy()), fresh()).data, 1e-12):
+        return 'workarray-record-value: traced value differs from the direct run while recording'
+    for k, pt in enumerate(case['pts']):
+        pt = np.array(pt)
+        want = prog(UTPM(pt.copy()), fresh()).data
+        try:
+            got = cg.function([UTPM(pt.copy())])[0].data
+        except Exception as ex:
+            return 'workarray-replay-exception: %s' % (type(ex).__name__ + ':' + str(ex)[:60])
+        if not close(got, want, 1e-12):
+            return 'workarray-replay: replay number %d differs from the direct run with a fresh work array (max diff %s; non-owning storage: %s)' % (
+                k + 1, maxdiff(got, want), case['nonowning'])
+    return None
+
+
 def replay_case(ctx, case):
+    if case.get('op') == 'workarray-replay':
+        return workarray_replay_fails(case)
     if case.get('op') == 'tracer-cmp':
         return cmp_fails(case)
     if case.get('late'):
@@ -402,6 +441,15 @@ def late_check(case):
 
 def run(ctx):
     rng = ctx.rng
+    for nonowning in (False, True):
+        for D_, P_ in ((1, 1), (2, 2)):
+            case = {'op': 'workarray-replay', 'nonowning': nonowning, 'D': D_, 'P': P_, 'rec': rand_coeffs(rng, (D_, P_, 3), -2, 2),
+                    'pts': [rand_coeffs(rng, (D_, P_, 3), -2, 2) for _ in range(3)]}
+            ctx.evaluations += 1
+            ctx.count('hand-wrapped-work-array')
+            f = workarray_replay_fails(case)
+            if f:
+                ctx.report(case, 'failure', f)
     for i in range(60 if ctx.tier == 'quick' else 600):
         case = late_case(rng, ctx.tier)
         ctx.evaluations += 1
